@@ -847,7 +847,8 @@ def r7_termination(chk, repo, mon):
                   site_text=f"{qn}: every normal exit passes close()")
     # reader recognises the marker
     rd = repo.func("Mailbox._read", MAILBOX)
-    marker_tests = [n for n in walk_body(rd.node) if isinstance(n, ast.Compare) and norm(n) == "msg is StopIteration"]
+    from ..pattern import pmatch
+    marker_tests = [n for n in walk_body(rd.node) if isinstance(n, ast.Compare) and pmatch("L_m is StopIteration", n) is not None]
     chk.check(len(marker_tests) >= 2, "C05.R7", rd, None, "reader no longer recognises the StopIteration end marker (needs: stop the read loop, and do not yield it)",
               site_text="Mailbox._read: end marker recognised in extraction and in delivery")
 
